@@ -242,19 +242,20 @@ int ref_pq_write(ref_arena* a, const ref_write_req* rq, ref_buf* out, ref_pagein
                 ref_buf rep, def, val; ref_buf_init(&rep); ref_buf_init(&def); ref_buf_init(&val);
                 put_levels(c->rep, lpos, pl, c->max_rep, L->level_form, L->level_encoding, !L->v2, &rep);
                 put_levels(c->def, lpos, pl, c->max_def, L->level_form, L->level_encoding, !L->v2, &def);
-                if (dict) { int bw = ref_bit_width((int)(ndict > 0 ? ndict - 1 : 0)); if (L->index_bw_extra >= 100) { if (L->index_bw_extra - 100 > bw) bw = L->index_bw_extra - 100; } else bw += L->index_bw_extra; if (bw > 32) bw = 32; ref_buf_u8(&val, (uint8_t)bw); ref_hybrid_encode(idx + vpos, pv, bw, L->index_form, &val); }
-                else if (L->value_encoding == ENC_PLAIN) put_plain(c, vpos, pv, &val);
+                bool pdict = dict && !((L->plain_page_mask >> p) & 1u); int penc = pdict || !dict ? L->value_encoding : ENC_PLAIN;
+                if (pdict) { int bw = ref_bit_width((int)(ndict > 0 ? ndict - 1 : 0)); if (L->index_bw_extra >= 100) { if (L->index_bw_extra - 100 > bw) bw = L->index_bw_extra - 100; } else bw += L->index_bw_extra; if (bw > 32) bw = 32; ref_buf_u8(&val, (uint8_t)bw); ref_hybrid_encode(idx + vpos, pv, bw, L->index_form, &val); }
+                else if (penc == ENC_PLAIN) put_plain(c, vpos, pv, &val);
                 else put_other_encoding(c, L->value_encoding, vpos, pv, &val);
                 ref_buf comp; ref_buf_init(&comp); ref_page_header h; memset(&h, 0, sizeof h);
                 size_t unc;
                 if (!L->v2) {
                     ref_buf body; ref_buf_init(&body); ref_buf_put(&body, rep.p, rep.n); ref_buf_put(&body, def.p, def.n); ref_buf_put(&body, val.p, val.n);
                     if (ref_compress(L->codec, body.p, body.n, &comp)) return -2; unc = body.n; ref_buf_free(&body);
-                    h.type = 0; h.has_dph = true; h.dph.num_values = (int32_t)pl; h.dph.encoding = L->value_encoding; h.dph.def_enc = h.dph.rep_enc = L->level_encoding == ENC_BIT_PACKED ? ENC_BIT_PACKED : ENC_RLE; if (L->absent_levels_bit_packed) { if (c->max_def == 0) h.dph.def_enc = ENC_BIT_PACKED; if (c->max_rep == 0) h.dph.rep_enc = ENC_BIT_PACKED; }
+                    h.type = 0; h.has_dph = true; h.dph.num_values = (int32_t)pl; h.dph.encoding = penc; h.dph.def_enc = h.dph.rep_enc = L->level_encoding == ENC_BIT_PACKED ? ENC_BIT_PACKED : ENC_RLE; if (L->absent_levels_bit_packed) { if (c->max_def == 0) h.dph.def_enc = ENC_BIT_PACKED; if (c->max_rep == 0) h.dph.rep_enc = ENC_BIT_PACKED; }
                     if (L->page_stats) { h.dph.has_stats = true; h.dph.stats = *L->page_stats; }
                 } else {
                     ref_buf_put(&comp, rep.p, rep.n); ref_buf_put(&comp, def.p, def.n); if (ref_compress(L->codec, val.p, val.n, &comp)) return -2; unc = rep.n + def.n + val.n;
-                    h.type = 3; h.has_v2 = true; h.v2.num_values = (int32_t)pl; h.v2.num_nulls = (int32_t)(pl - pv); h.v2.num_rows = (int32_t)pl; h.v2.encoding = L->value_encoding; h.v2.def_len = (int32_t)def.n; h.v2.rep_len = (int32_t)rep.n;
+                    h.type = 3; h.has_v2 = true; h.v2.num_values = (int32_t)pl; h.v2.num_nulls = (int32_t)(pl - pv); h.v2.num_rows = (int32_t)pl; h.v2.encoding = penc; h.v2.def_len = (int32_t)def.n; h.v2.rep_len = (int32_t)rep.n;
                     h.v2.has_compressed = true; h.v2.compressed = L->codec != CODEC_NONE;
                 }
                 h.uncompressed_size = (int32_t)unc; h.compressed_size = (int32_t)comp.n;
